@@ -84,7 +84,15 @@ def run(ctx, part):
         _, pid, sub = part.split(":", 2)
         mod = importlib.import_module("verif.props." + pid)
         # sanitizers are the only oracle here: value disagreements belong to the other property's own check
-        ctx.fail = lambda key, detail=None: None
+        real_fail = ctx.fail
+
+        def sampler_fail(key, detail=None):
+            # value disagreements belong to the other property; what the trampoline's own monitors see (a handler
+            # chain left dangling by a return from inside a protected block, a sticky code that disagrees with the
+            # handler) is exactly "the library remains usable afterwards" and stays a failure here
+            if str(key).endswith(("|handler-chain", "|sticky-code", "|library-unusable-afterwards")):
+                real_fail(key, detail)
+        ctx.fail = sampler_fail
         real_n = ctx.n
         ctx.n = lambda q, t=None: max(1, real_n(q, t) // (4 if ctx.quick else 2))
         ctx.default_budget = 300
